@@ -8,7 +8,9 @@ import (
 	"encoding/json"
 	"fmt"
 	"os"
+	"os/exec"
 	"path/filepath"
+	"regexp"
 	"sort"
 	"strings"
 	"time"
@@ -48,6 +50,7 @@ type Ctx struct {
 	Seed     int
 	VerifDir string
 	Repo     string
+	Replays  int // replays run so far
 }
 
 type Finding struct {
@@ -106,8 +109,19 @@ func Run(ctx *Ctx, p *Property, level string) int {
 			continue
 		}
 		b := olayer.NewBuilder(ctx.L.Contracts)
+		b.Prefixes = pluginPrefixes(ctx.Repo)
 		for _, fn := range g.Funcs {
-			rep, err := olayer.RunEntry(ctx.L, b, fn, olayer.RunOpts{NoVC: g.NoVC})
+			ro := olayer.RunOpts{NoVC: g.NoVC}
+			if ctx.Tier == "thorough" {
+				// thorough: struct field counts are enumerated up to 4 instead of 3 for the
+				// generator functions whose clauses do not spell out arities (attribute thorough-arity)
+				if con := ctx.L.Contracts.Funcs[fn]; con != nil {
+					if ta := con.Attr("thorough-arity"); ta != "" {
+						fmt.Sscan(ta, &ro.MaxArity)
+					}
+				}
+			}
+			rep, err := olayer.RunEntry(ctx.L, b, fn, ro)
 			if err != nil {
 				fmt.Fprintf(os.Stderr, "gvc: engine error (property %s undecided): %v\n", p.ID, err)
 				return 2
@@ -223,6 +237,9 @@ func Run(ctx *Ctx, p *Property, level string) int {
 			violations++
 			rp := writeReplay(ctx, p.ID, a.failed[0])
 			suffix := " no-failing-input-found"
+			if strings.HasSuffix(rp, "#reproduced") {
+				rp, suffix = strings.TrimSuffix(rp, "#reproduced"), ""
+			}
 			fmt.Printf("VIOLATION property=%s replay=%s%s\n", p.ID, rp, suffix)
 			fmt.Printf("  failed obligation: %s (%s; %s)\n", n, a.failed[0].Status, a.failed[0].Pos)
 			if msg := firstLine(a.failed[0].Output); msg != "" {
@@ -343,9 +360,91 @@ func writeReplay(ctx *Ctx, prop string, r driver.ObResult) string {
 		"smtlib": smtText, "reproduced": false,
 		"note": "the named obligation is generated from /repo's current source and is discharged on the pinned tree; it is not discharged here",
 	}
+	if r.Concrete != "" && ctx.Replays < 6 {
+		// at most six replays per run (each builds goderive and compiles a package)
+		ctx.Replays++
+		ok, log := replayConcrete(ctx, r.Concrete)
+		rep["concrete_package"] = r.Concrete
+		rep["replay_log"] = log
+		rep["reproduced"] = ok
+		if ok {
+			rep["note"] = "replayed against the real code: goderive built from the working tree exits 0 on the concrete package and the package with its derived.gen.go does not compile"
+		}
+	}
 	data, _ := json.MarshalIndent(rep, "", " ")
 	os.WriteFile(path, data, 0o644)
+	if rep["reproduced"] == true {
+		return path + "#reproduced"
+	}
 	return path
+}
+
+var prefixRe = regexp.MustCompile(`derive\.NewPlugin\("([a-z]+)", "([A-Za-z]+)"`)
+
+// pluginPrefixes reads the default prefixes from the plugins' NewPlugin calls.
+func pluginPrefixes(repo string) map[string]string {
+	out := map[string]string{}
+	files, _ := filepath.Glob(filepath.Join(repo, "plugin", "*", "*.go"))
+	for _, f := range files {
+		data, err := os.ReadFile(f)
+		if err != nil {
+			continue
+		}
+		for _, m := range prefixRe.FindAllStringSubmatch(string(data), -1) {
+			out[m[1]] = m[2]
+		}
+	}
+	return out
+}
+
+// replayConcrete runs the real goderive (built from the repository's working
+// tree) on a concrete package and compiles the result. The violation is
+// reproduced when goderive exits 0 and the package does not compile.
+func replayConcrete(ctx *Ctx, src string) (bool, string) {
+	dir, err := os.MkdirTemp("", "gvc-replay-")
+	if err != nil {
+		return false, err.Error()
+	}
+	defer os.RemoveAll(dir)
+	env := append(os.Environ(), "GOFLAGS=-mod=mod", "GOPROXY=off")
+	bin := filepath.Join(dir, "goderive")
+	var log strings.Builder
+	run := func(wd string, name string, args ...string) (int, string) {
+		cmd := exec.Command(name, args...)
+		cmd.Dir = wd
+		cmd.Env = env
+		out, err := cmd.CombinedOutput()
+		code := 0
+		if err != nil {
+			code = 1
+			if ee, ok := err.(*exec.ExitError); ok {
+				code = ee.ExitCode()
+			}
+		}
+		fmt.Fprintf(&log, "$ %s %s  (exit %d)\n%s\n", filepath.Base(name), strings.Join(args, " "), code, firstLines(string(out), 12))
+		return code, string(out)
+	}
+	if code, _ := run(ctx.Repo, "go", "build", "-o", bin, "."); code != 0 {
+		return false, log.String()
+	}
+	pkg := filepath.Join(dir, "replay")
+	os.MkdirAll(pkg, 0o755)
+	os.WriteFile(filepath.Join(pkg, "go.mod"), []byte("module replay\n\ngo 1.24\n"), 0o644)
+	os.WriteFile(filepath.Join(pkg, "replay.go"), []byte(src), 0o644)
+	gcode, _ := run(pkg, bin, ".")
+	if gcode != 0 {
+		return false, log.String()
+	}
+	bcode, _ := run(pkg, "go", "build", "./...")
+	return bcode != 0, log.String()
+}
+
+func firstLines(s string, n int) string {
+	ls := strings.Split(strings.TrimSpace(s), "\n")
+	if len(ls) > n {
+		ls = append(ls[:n], "...")
+	}
+	return strings.Join(ls, "\n")
 }
 
 func firstLine(s string) string {
@@ -399,4 +498,34 @@ func globMatch(pat, s string) bool {
 		s = s[j+len(p):]
 	}
 	return true
+}
+
+// Replay re-runs the replay recorded in a replay file against the repository's
+// working tree. It returns 1 when the violation reproduces, 0 when it does not,
+// 2 when the file carries no concrete input.
+func Replay(ctx *Ctx, path string) int {
+	data, err := os.ReadFile(path)
+	if err != nil {
+		fmt.Fprintln(os.Stderr, "gvc:", err)
+		return 2
+	}
+	var rep map[string]interface{}
+	if err := json.Unmarshal(data, &rep); err != nil {
+		fmt.Fprintln(os.Stderr, "gvc:", err)
+		return 2
+	}
+	fmt.Printf("obligation: %v\nstatus on the run that wrote the file: %v\n", rep["obligation"], rep["status"])
+	src, _ := rep["concrete_package"].(string)
+	if src == "" {
+		fmt.Println("no concrete input was found for this obligation (no-failing-input-found): the file carries the failed obligation, the solver output and the SMT-LIB text")
+		return 2
+	}
+	ok, log := replayConcrete(ctx, src)
+	fmt.Print(log)
+	if ok {
+		fmt.Println("REPRODUCED: goderive exits 0 on the concrete package and the result does not compile")
+		return 1
+	}
+	fmt.Println("not reproduced on the current tree")
+	return 0
 }
